@@ -1,6 +1,7 @@
 package sim
 
 import (
+	"encoding/json"
 	"fmt"
 	"sort"
 	"strings"
@@ -993,6 +994,34 @@ func genWorld(r *Rand, cfg GenCfg) Plan {
 			case "W":
 				g.deviateW(c, tcSec)
 			}
+		}
+	}
+
+	// an attenuated leaf (PolFrom) lists its base's statements first, as they stand after every
+	// deviation, then its own (whatever later deviations put in front moves behind the base's)
+	for i := range c.dlgs {
+		if c.dlgs[i].PolFrom == "" {
+			continue
+		}
+		for j := range c.dlgs {
+			if c.dlgs[j].Label != c.dlgs[i].PolFrom {
+				continue
+			}
+			seen := map[string]int{}
+			for _, st := range c.dlgs[j].Pol {
+				b, _ := json.Marshal(st)
+				seen[string(b)]++
+			}
+			pol := append([]Stmt{}, c.dlgs[j].Pol...)
+			for _, st := range c.dlgs[i].Pol {
+				b, _ := json.Marshal(st)
+				if seen[string(b)] > 0 {
+					seen[string(b)]--
+					continue
+				}
+				pol = append(pol, st)
+			}
+			c.dlgs[i].Pol = pol
 		}
 	}
 
